@@ -882,6 +882,50 @@ func scenarioFamily() *family {
 			run.Violate("hist[scenarios].tss/rsa.CombineSignShares", "stale-or-aliased-state", "combining the same shares a second time: err=%v", err)
 		}
 	})
+	sc("tss/rsa.KeyShare.UnmarshalBinary(into-used-object)", func(run *core.Run, imm uint64) {
+		// a key share decoded into an object that held another share (with or without the memoised
+		// exponent) is the share decoded into a fresh object: same encoding, same partial signature
+		key := fixtures.RSAKey("std-1024-a")
+		heldCache, newCache := imm&1 == 1, imm&2 == 2
+		held, err := tssrsa.Deal(core.NewStream(imm+1), 3, 2, key, heldCache)
+		if err != nil {
+			panic("HARNESS: Deal: " + err.Error())
+		}
+		other, err := tssrsa.Deal(core.NewStream(imm+2), 3, 2, key, newCache)
+		if err != nil {
+			panic("HARNESS: Deal: " + err.Error())
+		}
+		digest := make([]byte, 128)
+		digest[127] = byte(imm>>2) | 1
+		used := held[int(imm>>4)%3]
+		enc, _ := other[int(imm>>6)%3].MarshalBinary()
+		keep := append([]byte{}, enc...)
+		var fresh tssrsa.KeyShare
+		if err := fresh.UnmarshalBinary(enc); err != nil {
+			panic("HARNESS: KeyShare.UnmarshalBinary of an own encoding: " + err.Error())
+		}
+		if err := used.UnmarshalBinary(enc); err != nil {
+			run.Violate("hist[scenarios].tss/rsa.KeyShare.UnmarshalBinary", "decode-into-used-object-differs", "held cache=%v new cache=%v: the used object refuses what a fresh one accepts: %v", heldCache, newCache, err)
+			return
+		}
+		core.Recycle(enc)
+		fb, _ := fresh.MarshalBinary()
+		ub, _ := used.MarshalBinary()
+		if !bytes.Equal(fb, keep) || !bytes.Equal(ub, keep) {
+			run.Violate("hist[scenarios].tss/rsa.KeyShare.UnmarshalBinary", "decode-into-used-object-differs", "held cache=%v new cache=%v: the decoded share encodes as the input: fresh object %v, used object %v", heldCache, newCache, bytes.Equal(fb, keep), bytes.Equal(ub, keep))
+			return
+		}
+		fs, err1 := fresh.Sign(nil, &key.PublicKey, digest, false)
+		us, err2 := used.Sign(nil, &key.PublicKey, digest, false)
+		if err1 != nil || err2 != nil {
+			panic("HARNESS: Sign")
+		}
+		fsb, _ := fs.MarshalBinary()
+		usb, _ := us.MarshalBinary()
+		if !bytes.Equal(fsb, usb) {
+			run.Violate("hist[scenarios].tss/rsa.KeyShare.UnmarshalBinary", "decode-into-used-object-differs", "held cache=%v new cache=%v: the share decoded into a used object signs differently from the share decoded into a fresh one", heldCache, newCache)
+		}
+	})
 	sc("eddilithium2/3.PublicKey.Unpack(buffer-reused)", func(run *core.Run, imm uint64) {
 		r := core.NewPRNG(imm)
 		var seed2 [eddilithium2.SeedSize]byte
